@@ -245,6 +245,10 @@ impl StateMachine<'_> {
             let label = format_label(&self.config.file_modified_label);
             let name = get_repeated_file_path_from_diff_line(&self.diff_line).unwrap_or_default();
             let line = format!("{}{}", label, format_file(&name));
+            // This is this file's header: it must not be written once more when this function
+            // is next called (a "commit" line is followed by a "diff" line, and both call it).
+            self.handled_diff_header_header_line_file_pair
+                .clone_from(&self.current_file_pair);
             write_generic_diff_header_header_line(
                 &line,
                 &line,
